@@ -161,6 +161,10 @@ def c15_jobs(tier):
             job("rclient0", n, workers=1, tag=tag), job("rclient1", n, workers=1, tag=tag), job("rclient2", n, workers=1, tag=tag)]
 
 
+def c18_jobs(tier):
+    return [job("slots", scale(tier, 120000, 4000000), workers=16, tag=scale(tier, "quick", ""), step_cap=400000)]
+
+
 NOT_YET = {}
 
 PROPS = {
@@ -423,5 +427,25 @@ PROPS = {
                 "drawn values / program.",
         "nontrivial_floor": 0.1,
         "assumptions": ["marked pointers are aligned for their lower mark bits and fit the pointer bits (documented precondition, by construction)"],
+    },
+    "C18": {
+        "jobs": c18_jobs,
+        "level_text": "Sampled exploration of guard operation sequences (24 operations over K+2 guard variables, 1-3 threads one after the "
+                      "other so that control blocks are re-used) for hazard pointers and hazard eras, static K in {1,2,3,5} and dynamic K in "
+                      "{1,2}; a conservative slot model decides when an allocation exception is forbidden, allowed, and what must hold after it.",
+        "level_note": "Trusted: runtime; the slot model only forbids an exception while (protecting guards + empty variables that may still own "
+                      "a slot) < K, and only allows the scheme's own exception type; hazard-pointer copy assignment from an empty guard and "
+                      "hazard-era acquire of a null pointer keep a slot, which the statement does not exclude.",
+        "technique": "property-based testing: generated guard-operation sequences vs conservative slot model, exception contract and protection (retire+scan by another thread)",
+        "rule": "case = scheme (HP/HE) x strategy (static K=1,2,3,5; dynamic K=1,2) x 1-3 consecutive threads x 24 operations from acquire, "
+                "acquire_if_equal (equal/unequal/null expected), copy/move assignment incl. self-assignment, swap, reset (twice), "
+                "destroy+default construct, copy/move construction, construction from a marked_ptr of a linked object, use, 2000 "
+                "acquire/release rounds, and retire+scan of a cell's object by another thread. Every thread first acquires K protecting "
+                "guards. Oracle: no exception while the slot upper bound is below K (static) or ever (dynamic); only the scheme's exception "
+                "type; after an exception all other guards are unchanged and still protect; after releasing one guard the acquire "
+                "succeeds; guard contents equal the model after every step; no guarded object is destroyed. Non-trivial: K protecting "
+                "guards were held at once. Distinct: operation sequence.",
+        "nontrivial_floor": 0.5,
+        "assumptions": ["single guard-using thread at a time plus a helper thread for retire+scan"],
     },
 }
